@@ -49,6 +49,7 @@ type CaseSpec struct {
 	Probe     *probe      `json:"probe,omitempty"`
 	VStart    string      `json:"probe_virtual_time,omitempty"`
 	Bound     string      `json:"lease_bound_virtual,omitempty"`
+	Granted   string      `json:"parent_ttls_alone_end_virtual,omitempty"`
 	Referrals []*referral `json:"referrals_sent_for_victim_path,omitempty"`
 	Reply     string      `json:"reply,omitempty"`
 	Upstream  []string    `json:"upstream,omitempty"`
@@ -56,8 +57,23 @@ type CaseSpec struct {
 }
 
 type runner struct {
-	r  *vlib.Run
-	id uint16
+	r    *vlib.Run
+	id   uint16
+	seen map[string]bool
+}
+
+// viol reports a violation; the (costly) replay case is only built for the
+// first occurrence of a signature in this process.
+func (run *runner) viol(sig, what string, mk func() CaseSpec) {
+	if run.seen == nil {
+		run.seen = map[string]bool{}
+	}
+	if run.seen[sig] {
+		run.r.Violation(sig, what, nil)
+		return
+	}
+	run.seen[sig] = true
+	run.r.Violation(sig, what, mk())
 }
 
 const rule = "distinct_nontrivial = distinct (tree depth, victim level, withdraw|repoint, secure|insecure victim cut, smallest term of the lease formula, lease size bucket) shapes whose scenario reached judged probes after the lease bound; evaluations = client replies judged after the bound + stored delegation deadlines compared with the grant"
@@ -227,12 +243,18 @@ func busyGoroutine() string {
 // which the goroutine scan sees), prefetch queue empty, no prefetch claim
 // held, and no goroutine inside resolver / prefetch code — on two consecutive
 // looks. It then stamps the referrals sent so far. false = watchdog.
-func (run *runner) quiesce(w *world) bool {
-	deadline := time.Now().Add(60 * time.Second)
+func (run *runner) quiesce(w *world) bool { return run.quiesceX(w, false) }
+
+// quiesceX with all=true also waits for the detached IPv6 enrichment jobs
+// (they sleep 2 s of real time before they start resolving): required before
+// every clock step and before the parent changes, so that no job can wake up
+// between the look and the step and carry an observation instant across it.
+func (run *runner) quiesceX(w *world, all bool) bool {
+	deadline := time.Now().Add(90 * time.Second)
 	stable := 0
 	for {
-		a, b, c, _ := w.rs.Handler.VerifSlots()
-		idle := a+b+c == 0
+		a, b, c, d := w.rs.Handler.VerifSlots()
+		idle := a+b+c == 0 && (!all || d == 0)
 		if idle {
 			if ch := w.rs.Cache(); ch != nil && (ch.VerifStackPrefetchBacklog() != 0 || ch.VerifC05PrefetchBusy() != 0) {
 				idle = false
@@ -251,7 +273,7 @@ func (run *runner) quiesce(w *world) bool {
 			stable = 0
 		}
 		if time.Now().After(deadline) {
-			run.r.Inconclusive(fmt.Sprintf("scenario %d: pipeline did not become quiescent within 60 s (busy frame %q)", w.sc.Index, busyGoroutine()))
+			run.r.Inconclusive(fmt.Sprintf("scenario %d: pipeline did not become quiescent within 90 s (busy frame %q)", w.sc.Index, busyGoroutine()))
 			return false
 		}
 		time.Sleep(500 * time.Microsecond)
@@ -263,7 +285,7 @@ func (run *runner) advance(w *world, d time.Duration) bool {
 	if d <= 0 {
 		return true
 	}
-	if !run.quiesce(w) {
+	if !run.quiesceX(w, true) {
 		return false
 	}
 	w.mu.Lock()
@@ -281,7 +303,7 @@ func (run *runner) advance(w *world, d time.Duration) bool {
 // latest instant the referrals sent so far can have granted (white-box view
 // of "measured from the moment the referral was observed").
 func (run *runner) checkLeases(w *world) {
-	a := w.bounds(false)
+	lim := w.bounds(false)
 	w.mu.Lock()
 	sk := w.sk
 	w.mu.Unlock()
@@ -294,13 +316,84 @@ func (run *runner) checkLeases(w *world) {
 			run.r.Count("leases_inspected", 1)
 			run.r.Eval(1)
 			expV := l.ExpiresAt.Sub(w.t0) + sk
-			if expV > a[j] {
+			if expV > lim.lease[j] {
 				c := run.caseOf(w, nil, nil)
-				c.Note = fmt.Sprintf("delegation cache entry for %s (cd=%v) expires at virtual %v, but no referral sent so far grants a lease past %v", w.apex[j], cd, expV, a[j])
-				c.Bound = a[j].String()
+				c.Note = fmt.Sprintf("delegation cache entry for %s (cd=%v) expires at virtual %v, but no referral sent so far grants a lease past %v", w.apex[j], cd, expV, lim.lease[j])
+				c.Bound = lim.lease[j].String()
 				run.r.Violation(vlib.Sig("lease", "stored-deadline-exceeds-grant"),
-					fmt.Sprintf("delegation of %s stored until V=%v although min(NS TTL, DS TTL, ancestors, 12h) from the latest referral observation ends at V=%v (%v too long) [%s]", w.apex[j], expV.Round(time.Millisecond), a[j].Round(time.Millisecond), (expV - a[j]).Round(time.Millisecond), w.sc.Shape()), c)
+					fmt.Sprintf("delegation of %s stored until V=%v although min(NS TTL, DS TTL, ancestors, 12h) from the latest referral observation window ends at V=%v (%v too long) [%s]", w.apex[j], expV.Round(time.Millisecond), lim.lease[j].Round(time.Millisecond), (expV - lim.lease[j]).Round(time.Microsecond), w.sc.Shape()), c)
 			}
+		}
+	}
+}
+
+// answerLevel tells which zone's servers answer (name, type) while the
+// original tree is in place: the deepest zone enclosing the name, or its
+// parent for a DS question at an apex. 0 = the root.
+func (w *world) answerLevel(name string, qtype uint16) int {
+	name = strings.ToLower(name)
+	lv := 0
+	for j := 1; j <= w.depth(); j++ {
+		if underOrAt(w.apex[j], name) {
+			lv = j
+		}
+	}
+	if lv > 0 && qtype == dns.TypeDS && name == w.apex[lv] {
+		lv--
+	}
+	return lv
+}
+
+// checkCuts inspects the answer cache while the ORIGINAL tree is in place
+// (so it is known which zone's servers produce an answer): every entry for a
+// question answered by the servers of level j — client answers, negative
+// answers, and the DS / DNSKEY / NS-address entries the resolver's own
+// sub-queries write — must carry a cut deadline, and one no later than the
+// latest lease of level j (white-box view of "the deadline reaches the answer
+// cache and sub-query cache writes").
+func (run *runner) checkCuts(w *world) {
+	ch := w.rs.Cache()
+	if ch == nil || w.changed {
+		return
+	}
+	lim := w.bounds(false)
+	w.mu.Lock()
+	sk := w.sk
+	w.mu.Unlock()
+	for _, e := range ch.VerifStore().VerifDump() {
+		j := w.answerLevel(e.Question, e.Qtype)
+		if j == 0 || lim.lease[j] < 0 {
+			continue
+		}
+		run.r.Count("answer_cuts_inspected", 1)
+		run.r.Eval(1)
+		id := fmt.Sprintf("%s/%s cd=%v", e.Question, dns.TypeToString[e.Qtype], e.CD)
+		if e.CutUntil.IsZero() {
+			c := run.caseOf(w, nil, nil)
+			c.Note = "answer-cache entry " + id + " carries no delegation cut at all"
+			run.r.Violation(vlib.Sig("cut", "answer-cached-without-cut"),
+				fmt.Sprintf("answer-cache entry %s (data of %s, reached through learned delegations) is stored without any cut deadline [%s]", id, w.apex[j], w.sc.Shape()), c)
+			continue
+		}
+		cutV := e.CutUntil.Sub(w.t0) + sk
+		if debug && os.Getenv("C08_DEBUG") == "2" {
+			fmt.Fprintf(os.Stderr, "    entry %-40s cut=%v lease=%v grant=%v\n", id, cutV, lim.lease[j], lim.grant[j])
+		}
+		switch {
+		case cutV <= lim.lease[j]:
+			run.r.Count("answer_cuts_within_lease", 1)
+		case cutV <= lim.grant[j]:
+			c := run.caseOf(w, nil, nil)
+			c.Bound = lim.lease[j].String()
+			c.Note = fmt.Sprintf("answer-cache entry %s: cut deadline V=%v; lease of %s (12 h ceiling included) ends V=%v; parent-granted TTLs alone would end V=%v", id, cutV, w.apex[j], lim.lease[j], lim.grant[j])
+			run.r.Violation(vlib.Sig("ceiling", "answer-cut-ignores-12h-ceiling"),
+				fmt.Sprintf("answer-cache entry %s may be served until V=%v, %v after the lease of %s ends (V=%v): its cut deadline is the referral's TTL without the 12 h ceiling the delegation itself gets [%s]", id, cutV.Round(time.Millisecond), (cutV - lim.lease[j]).Round(time.Second), w.apex[j], lim.lease[j].Round(time.Millisecond), w.sc.Shape()), c)
+		default:
+			c := run.caseOf(w, nil, nil)
+			c.Bound = lim.grant[j].String()
+			c.Note = fmt.Sprintf("answer-cache entry %s: cut deadline V=%v exceeds everything the parents granted (V=%v)", id, cutV, lim.grant[j])
+			run.r.Violation(vlib.Sig("cut", "answer-cut-exceeds-grant"),
+				fmt.Sprintf("answer-cache entry %s may be served until V=%v although no referral sent for %s (or above) grants anything past V=%v (%v too long) [%s]", id, cutV.Round(time.Millisecond), w.apex[j], lim.grant[j].Round(time.Millisecond), (cutV - lim.grant[j]).Round(time.Microsecond), w.sc.Shape()), c)
 		}
 	}
 }
@@ -440,6 +533,7 @@ func (run *runner) scenario(index int) {
 			return res, false
 		}
 		run.checkLeases(w)
+		run.checkCuts(w)
 		if debug {
 			kind, _ := w.oldData(res.reply, true)
 			rc := "nil"
@@ -467,7 +561,7 @@ func (run *runner) scenario(index int) {
 			return
 		}
 	}
-	bv := func() time.Duration { return w.bounds(true)[v] }
+	bv := func() time.Duration { return w.bounds(true).lease[v] }
 	if bv() < 0 {
 		r.Count("scenarios_without_victim_referral", 1)
 		return
@@ -513,7 +607,8 @@ func (run *runner) scenario(index int) {
 		return
 	}
 	w.change()
-	bound := bv()
+	lim := w.bounds(true)
+	bound, granted := lim.lease[v], lim.grant[v]
 	dsb := w.dsBound()
 	r.Count("changes/"+sc.Mode, 1)
 	if debug {
@@ -594,11 +689,24 @@ func (run *runner) scenario(index int) {
 		r.Count("after_kind/"+p.Kind, 1)
 		dsToo := p.Kind != "ds-victim" || res.vStart > dsb+graceAfter
 		if kind, detail := w.oldData(res.reply, dsToo); kind != "" {
-			c := run.caseOf(w, &p, &res)
-			c.Bound = bound.String()
-			r.Violation(vlib.Sig("ghost", "served-after-lease", kind),
+			mk := func() CaseSpec {
+				c := run.caseOf(w, &p, &res)
+				c.Bound = bound.String()
+				c.Granted = granted.String()
+				return c
+			}
+			if res.vEnd <= granted {
+				// past the lease only because of the 12 h ceiling: the
+				// referral's own TTLs (and every ancestor's) still cover it
+				r.Count("after_bound_old_within_parent_ttl", 1)
+				run.viol(vlib.Sig("ceiling", "served-after-12h-ceiling", kind),
+					fmt.Sprintf("%s answered with data learned through the OLD delegation of %s at V=%v, %v after its lease ended (V=%v, decided by the 12 h ceiling; the referral TTLs alone run to V=%v): %s [%s]",
+						p, w.victimApex, res.vStart.Round(time.Millisecond), (res.vStart - bound).Round(time.Millisecond), bound.Round(time.Millisecond), granted.Round(time.Millisecond), detail, sc.Shape()), mk)
+				return
+			}
+			run.viol(vlib.Sig("ghost", "served-after-lease", kind),
 				fmt.Sprintf("%s answered with data learned through the OLD delegation of %s at V=%v, %v after the latest lease any referral granted (bound V=%v): %s [%s]",
-					p, w.victimApex, res.vStart.Round(time.Millisecond), (res.vStart - bound).Round(time.Millisecond), bound.Round(time.Millisecond), detail, sc.Shape()), c)
+					p, w.victimApex, res.vStart.Round(time.Millisecond), (res.vStart - bound).Round(time.Millisecond), bound.Round(time.Millisecond), detail, sc.Shape()), mk)
 			return
 		}
 		cls := w.newTruth(p, res.reply)
